@@ -37,6 +37,16 @@ func (vc *VC) newState(kind stateKind, parent *State) *State {
 
 func (s *State) seq() *State { return s.vc.newState(stSeq, s) }
 
+// isHeapName: field, element, box and map heaps (not ghosts, locals, the frontier).
+func isHeapName(name string) bool {
+	for _, p := range []string{"F$", "M$", "B$", "MD$", "MV$", "MN$"} {
+		if strings.HasPrefix(name, p) {
+			return true
+		}
+	}
+	return false
+}
+
 // prefixHit: name is a heap whose qualified name (after F$/M$/MD$/...) starts with a havocked prefix.
 func (s *State) prefixHit(name string) bool {
 	i := strings.Index(name, "$")
@@ -94,7 +104,7 @@ func (s *State) get(name string, sort Sort) Term {
 			s.writes[name] = t
 			return t
 		case stHavocSome:
-			if s.mods[name[2:]] || s.mods["*"] || s.mods["N$"+name[2:]] {
+			if s.mods[name[2:]] || s.mods["*"] || s.mods["N$"+name[2:]] || s.mods["N$*"] {
 				t = s.get("$alloc", SBV64)
 				s.writes[name] = t
 				return t
@@ -140,7 +150,7 @@ func (s *State) get(name string, sort Sort) Term {
 	case stHavocSome:
 		if s.mods[name] || s.mods["*"] || s.prefixHit(name) {
 			t = s.vc.declareFresh(name+"!l", sort)
-		} else if s.mods["N$"+name] && strings.HasPrefix(string(sort), "(Array (_ BitVec 64) ") {
+		} else if (s.mods["N$"+name] || s.mods["N$*"] && isHeapName(name)) && strings.HasPrefix(string(sort), "(Array (_ BitVec 64) ") {
 			// only objects allocated since the parent state may differ
 			t = s.vc.freshAbove(name, s.parent.get(name, sort), s.parent.get("$alloc", SBV64))
 		} else {
